@@ -298,6 +298,8 @@ async def _connect(scn: dict, b: Bench) -> dict:
     auto = bufsize == 0
     par = {"boundA": _bound(bufs["A"][0], bufs["B"][1], auto), "boundB": _bound(bufs["B"][0], bufs["A"][1], auto),
            "pausedA": paused[role["A"]], "pausedB": paused[role["B"]], "protoA": proto, "protoB": proto}
+    # uvloop keeps a socket object open while it is registered with add_reader / add_writer (F16)
+    par["deferA"] = par["deferB"] = 1 if kind == "unix" and scn["loop"] == "uvloop" else 0
     return par
 
 
